@@ -384,6 +384,16 @@ fn mirror_of(pad: f64, blk: f64, states: Vec<(Option<Action>, (Option<Counter>, 
     )
 }
 
+pub fn trial_corners() -> Vec<u64> {
+    let cap = 1_000_000_000u64;
+    let mut v = vec![0, 1, 10, cap - 1, cap, cap + 1, u64::MAX, u64::MAX - 1, (5 << 32) + 7, (1 << 63) + cap, (1 << 16) + 1];
+    for k in [8u32, 16, 31, 32, 33, 40, 53, 62, 63] {
+        let b = 1u64 << k;
+        v.extend([b - 1, b, b + 1, b.wrapping_add(cap), b.wrapping_add(cap + 1)]);
+    }
+    v
+}
+
 /// slot numbering of the matrix: 0..=26 distribution parameter slots (x 6 placements), 27/28 the
 /// machine fractions, 29..=31 transition probability shapes (f32), 32.. structural
 fn matrix() -> Vec<Candidate> {
@@ -401,6 +411,17 @@ fn matrix() -> Vec<Candidate> {
                     let (mm, m) = mirror_of(0.5, 0.5, vec![plain.clone(), plain, (a, c, vec![(Event::NormalRecv, vec![Trans(0, 1.0)])])]);
                     v.push(Candidate { desc: format!("dist slot {slot} placement {place} in state 2 of 3, value {x:e}"), mirror: mm, machine: Some(m) });
                 }
+            }
+        }
+    }
+    // the one integer parameter (Binomial trials, a u64): corners of the documented cap of 10^9 and of every
+    // narrower integer width it might pass through on its way to the comparison
+    for t in trial_corners() {
+        for p in [0.5, 1.0e-9, 0.0, 1.0] {
+            for place in 0..PLACES {
+                let (a, c) = place_dist(place, Dist::new(DistType::Binomial { trials: t, probability: p }, 0.0, 0.0));
+                let (mm, m) = mirror_of(0.5, 0.5, vec![(a, c, vec![(Event::NormalSent, vec![Trans(0, 1.0)])])]);
+                v.push(Candidate { desc: format!("Binomial trials {t} probability {p:e} placement {place}"), mirror: mm, machine: Some(m) });
             }
         }
     }
